@@ -6,6 +6,7 @@ import (
 	"context"
 	"fmt"
 	"strings"
+	"sync/atomic"
 	"testing"
 	"time"
 
@@ -261,6 +262,93 @@ func TestVerifC05B(t *testing.T) {
 					}
 				}
 				for _, d := range devs[3:] {
+					ok = ok && activate(d)
+				}
+			} else if pi == 1 && c.devices[0] == 2 && len(devs) >= 3 {
+				// directed plan "failed announcement, then the member's next device": A is active; the first device M1 of a
+				// member joins and A's attempt to announce itself to that member fails once (its secret store's datastore
+				// refuses ONE read of A's own chain key); then the member's second device M2 joins, which makes A try
+				// again. At the fixpoint M1 and M2 must hold A's chain key like everybody else.
+				order = nil
+				m1, m2, a := devs[0], devs[1], devs[2]
+				ok = activate(a) && activate(m1)
+				if ok {
+					if err := c05bSettle(devs); err != nil {
+						rep.Inconclusivef("%s: %v", tag, err)
+						return
+					}
+					gpkA, _ := g.GetPubKey()
+					gRaw, _ := gpkA.Raw()
+					own := fmt.Sprintf("/chainKeyForDeviceOnGroup/%x/%x", gRaw, rawKey(a.gc.DevicePubKey()))
+					var fired atomic.Bool
+					a.r.ssDS.FailOn = func(op, key string) error {
+						if op == "get" && key == own && fired.CompareAndSwap(false, true) {
+							return fmt.Errorf("verif: injected datastore error")
+						}
+						return nil
+					}
+					if err := c05bDeliverEmitted(ctx, a, vHeads(m1.gc.MetadataStore())); err != nil {
+						rep.Inconclusivef("%s: deliver: %v", tag, err)
+						return
+					}
+					if err := c05bSettle(devs); err != nil {
+						rep.Inconclusivef("%s: %v", tag, err)
+						return
+					}
+					a.r.ssDS.FailOn = nil
+					if fired.Load() {
+						rep.Count("announcements_failed_by_an_injected_fault", 1)
+					}
+					trace = append(trace, fmt.Sprintf("sync(%s<-%s) with ONE failing read of %s's own chain key (fired=%v)", a.name, m1.name, a.name, fired.Load()))
+					ok = activate(m2)
+					if ok {
+						if err := c05bDeliverEmitted(ctx, a, vHeads(m2.gc.MetadataStore())); err != nil {
+							rep.Inconclusivef("%s: deliver: %v", tag, err)
+							return
+						}
+						trace = append(trace, fmt.Sprintf("sync(%s<-%s)", a.name, m2.name))
+					}
+				}
+				for _, d := range devs[3:] {
+					ok = ok && activate(d)
+				}
+			} else if pi == 2 && len(devs) >= 2 {
+				// directed plan "re-activation": A joined earlier, its group is closed and opened again but not yet
+				// activated (nothing watches the log) when B's device entry arrives and is announced by the store; then A
+				// activates again. A's activation is the only thing that can still announce A to B.
+				order = nil
+				a, b := devs[0], devs[len(devs)-1]
+				ok = activate(a)
+				if ok {
+					if err := c05bSettle(devs); err != nil {
+						rep.Inconclusivef("%s: %v", tag, err)
+						return
+					}
+					_ = a.gc.Close()
+					a.active = false
+					gc2, err := a.r.open(g)
+					if err != nil {
+						rep.Inconclusivef("%s: reopen: %v", tag, err)
+						return
+					}
+					a.gc = gc2
+					trace = append(trace, "close+reopen("+a.name+")")
+					ok = activate(b)
+				}
+				if ok {
+					if err := c05bSettle(devs); err != nil {
+						rep.Inconclusivef("%s: %v", tag, err)
+						return
+					}
+					if err := c05bDeliverEmitted(ctx, a, vHeads(b.gc.MetadataStore())); err != nil {
+						rep.Inconclusivef("%s: deliver: %v", tag, err)
+						return
+					}
+					trace = append(trace, fmt.Sprintf("sync(%s<-%s) while %s is open but not activated", a.name, b.name, a.name))
+					rep.Count("reactivation_plans", 1)
+					ok = activate(a)
+				}
+				for _, d := range devs[1 : len(devs)-1] {
 					ok = ok && activate(d)
 				}
 			}
